@@ -1,4 +1,4 @@
 From Coq Require Import ExtrOcamlBasic ExtrOcamlString.
 From IV Require Import C08.Defs.
 Extraction Language OCaml.
-Extraction "ext.ml" impl_program spec_program.
+Extraction "ext.ml" impl_program spec_program stringify.
